@@ -8,6 +8,8 @@ def run(ctx):
 
 
 def replay(data):
+    if lexeme.is_time_record(data):
+        return lexeme.replay_time("C14", data)
     if str(data.get("obligation", "")).startswith("regex:"):
         from . import regexsec
         return regexsec.replay("C14", data)
